@@ -1825,9 +1825,7 @@ class VM:
             if n != n or math.isinf(n):
                 return to_string(n)
             if radix == 10:
-                if isinstance(n, float) and n.is_integer():
-                    return str(int(n))
-                return str(n)
+                return to_string(n)
             # Convert to different base
             if n < 0:
                 return "-" + self._number_to_base(-n, radix)
@@ -1885,9 +1883,7 @@ class VM:
             import math
 
             if not args or args[0] is UNDEFINED:
-                if isinstance(n, float) and n.is_integer():
-                    return str(int(n))
-                return str(n)
+                return to_string(n)
 
             precision = to_integer(args[0])
             if precision < 1 or precision > 100:
